@@ -60,6 +60,8 @@ def gen_exchange(rng):
     header = b''.join(keep) + eol
     host = rng.choice(['example.com', 'h.test'])
     path = rng.choice(['/', '/a/b?x=1', '/%7Eu'])
+    if rng.random() < 0.1:
+        path = wc.gen_long_path(rng)
     return {'url': 'http://%s%s' % (host, path), 'header': header, 'body': body, 'framing': framing,
             'status': r['status'], 'mime': r['mime'], 'linesep': r['linesep'],
             'cuts': fakenet.random_cuts(rng, len(header) + len(body), rng.choice(['none', 'one', 'few', 'many'])),
